@@ -196,6 +196,27 @@ def rule_delwait(P):
     return r
 
 
+def rule_owner(P):
+    r = Rule("C09-owner", "K3/K8", "the loop records the running thread as owner on every entry (IN_THREAD / NEED_NOTIFY depend on it)", floor=2)
+    Ls = [x for x in P.fns_in("event.c") if any(True for _ in x.calls(slot="eventop.dispatch"))]
+    if len(Ls) != 1:
+        r.brk("loop function not identified")
+        return r
+    f = Ls[0]
+    disp = list(f.calls(slot="eventop.dispatch"))[0]
+    st = [el for el, lhs, op, rhs in f.stores() if fields_of(lhs)[-1:] == ["event_base.th_owner_id"]]
+    fresh = [el for el in st if any(is_e(q, "call") and (q[1][0] == "ptr" or callee_name(q) in ("evthreadimpl_get_id_", "pthread_self")) for q in walk(el.e[3]))]
+    w = f.path_avoiding((f.entry, -1), lambda x: x is disp, lambda x: x in fresh)
+    r.inst("owner", {"fn": f.name, "owner_stores": [x.where() for x in st], "from_thread_id_call": [x.where() for x in fresh], "dispatch_reachable_without_store": bool(w)})
+    if not fresh or w is not None:
+        r.bad("K3:%s:owner-not-recorded" % f.name, disp.where(), f.name,
+              "the backend wait can be reached without th_owner_id being set to the current thread on this entry (a base looped by a second thread keeps the first thread as owner: "
+              "cross-thread calls from it are taken for in-thread calls — no wake-up, no wait for the running callback)")
+    clr = [el for el, lhs, op, rhs in f.stores() if fields_of(lhs)[-1:] == ["event_base.running_loop"]]
+    r.inst("running", {"running_loop_stores": [show(x.e) for x in clr]})
+    return r
+
+
 def run(ctx, config):
     P = ctx.prog(UNITS, config)
-    return [rule_lockset(P), rule_notify(P), rule_delwait(P)]
+    return [rule_lockset(P), rule_notify(P), rule_delwait(P), rule_owner(P)]
